@@ -27,6 +27,11 @@ def operand_replay_spec(o, values_from_model):
     kind = o.ghost["kind"]
     if kind == "Bool":
         return ["bool", bool(values_from_model.get(o.label, False))], {}
+    if kind == "BooleanOp":
+        # a real BooleanOp (consumers may distinguish it from a comparison): (v != 0) || (z != 0) with z == 0
+        a, z = o.label + "_nz", o.label + "_z"
+        b = bool(values_from_model.get(o.label, False))
+        return ["boolop", "||", ["var", a, [False, 8]], ["var", z, [False, 8]]], {a: 1 if b else 0, z: 0}
     if kind in irkit.BOOL_KINDS:
         a, z = o.label + "_nz", o.label + "_z"
         b = bool(values_from_model.get(o.label, False))
